@@ -682,7 +682,7 @@ func TestC02(t *testing.T) {
 		}
 	}
 
-	rapidCases(h, "server-stream", env.PerShard(env.Pick(2400, 300000)), func(rt *rapid.T) streamCase {
+	rapidCases(h, "server-stream", env.PerShard(env.Pick(12000, 400000)), func(rt *rapid.T) streamCase {
 		var c streamCase
 		n := rapid.IntRange(1, 8).Draw(rt, "n")
 		for i := 0; i < n; i++ {
@@ -711,13 +711,13 @@ func TestC02(t *testing.T) {
 		return f
 	})
 
-	rapidCases(h, "stream", env.PerShard(env.Pick(24000, 2000000)), genRawStream, func(c rawStreamCase) *fail {
+	rapidCases(h, "stream", env.PerShard(env.Pick(200000, 4000000)), genRawStream, func(c rawStreamCase) *fail {
 		f := checkStream(c.Data, c.Msize)
 		h.Case(evid.Hash64(c.Data, u32b(c.Msize)), len(c.Data) > 7, "in-process-stream")
 		return f
 	})
 
-	rapidCases(h, "client-recv", env.PerShard(env.Pick(800, 40000)), genClientRecvCase, func(c clientRecvCase) *fail {
+	rapidCases(h, "client-recv", env.PerShard(env.Pick(2400, 60000)), genClientRecvCase, func(c clientRecvCase) *fail {
 		h.Danger("client-recv", "client-panic", "the client process died while receiving a reply", c)
 		f := runClientRecvCase(c)
 		h.Safe()
